@@ -34,7 +34,7 @@ INV = 0b01111000011
 def cases(draw):
     nb = draw(st.sampled_from([1, 1, 1, 1, 2, 3]))
     pair = draw(gen.image_pair(min_rows=24, max_rows=64, min_cols=24, max_cols=64, max_val=30, masks=True, tile_max=8,
-                               conventions=True))
+                               conventions="per-image"))
     sf = draw(st.sampled_from([2, 2, 3]))
     ns = draw(st.sampled_from([2, 2, 3]))
     if sf ** (ns - 1) * 8 > min(pair["H"], pair["W"]):
@@ -96,7 +96,7 @@ def body(ctx: Ctx, p: dict) -> None:
     pipe = gen.pipe_dict(p["pipeline"])
     names = list(pipe)
     has_val = any(n.split(".")[0] == "validation" for n in names)
-    l, r = drive.make_inputs(left, right, (a, b), ml, mr, None, bands, p["pair"]["valid"], p["pair"]["nodata"])
+    l, r = drive.make_inputs(left, right, (a, b), ml, mr, None, bands, **gen.conv_kwargs(p["pair"]))
     lb, rb = build.snapshot(l), build.snapshot(r)
     from pandora.state_machine import PandoraMachine
 
@@ -237,7 +237,7 @@ def body(ctx: Ctx, p: dict) -> None:
         classes.append("multiband")
     if ml is not None or mr is not None:
         classes.append("mask")
-        if p["pair"]["valid"] != 0:
+        if p["pair"]["valid"] != 0 or p["pair"].get("valid_right", 0) != 0:
             classes.append("mask-own-convention")
     if a % f or b % f:
         classes.append("non-divisible-interval")
